@@ -215,6 +215,44 @@ BUILT = {
              "declaration whose initialiser reads the outer variable it shadows.",
         technique="TLA+ definition of freeze as a translation on Lang ASTs + three-way translation validation of generated "
                   "lambdas by TLC trace validation + TLC bounded exploration of freeze statement histories with replay"),
+    "C12": dict(
+        cat="model_checking", design="DESIGN.md §4 C12",
+        text="Pattern.tla defines Match(pattern, value, declared type) for names, _, literals/literally (by ==), sequence "
+             "patterns with one splat and trailing defaults, or (in order), and, annotations of every builtin/struct/"
+             "satisfying type, struct patterns, operator patterns (.+, +., n+k, k+n, -x, a/b, a*k, k*a) and comparison "
+             "chains, Switch as first matching arm, and the annotated-variable machine (Assign, OpAssign, IndexAssign, "
+             "EveryAssign, EveryOp, Swap, Destructure; invariant Typed); Types.tla defines IsType, TypeOf and the "
+             "conversion kinds. TLC enumerates every pattern of the depth<=2 / width<=3 shape family against a 17 "
+             "(thorough 31) value pool, two-arm (thorough three-arm) switches, the value x type table and all "
+             "annotated-variable histories of <=3 (thorough 4) actions, checks MatchTyped, Typed and the Types theorems "
+             "(v is type(v), v is anything, conversion results). Every line is replayed in the interpreter - a pair as "
+             "declaration, switch arm, lambda parameter(s), for clause and catch clause - comparing outcome class, "
+             "bindings, the arm that ran and `x is T` for every annotated name; a seeded driver adds deeper random "
+             "patterns and 25-30 step assignment histories that Trace_Pattern re-computes.",
+        note="Unspecified and not judged: multi-entry dict iteration order, numeric operator patterns on non-integers, "
+             "comparison chains on non-reals, negative multipliers, duplicate names in one pattern. Known finding: an `or` "
+             "pattern whose first alternative fails after declaring a name leaves it declared.",
+        technique="TLA+ spec (Pattern/Types) + TLC bounded enumeration with replay of every (pattern, value) pair / switch / "
+                  "annotated-variable transition + TLC trace validation of random patterns and assignment histories"),
+    "C14": dict(
+        cat="exploration", design="DESIGN.md §4 C14",
+        text="TLC explores the session protocol automaton Outcome.tla (an evaluation ends Returned, Thrown, Ctl or "
+             "ParseError and in no other way - there is no action for panic, abort or time-out) for all sessions of 3 "
+             "(thorough 4) statements over an abstract statement alphabet and checks OneOutcome, Containment, NoEscape, "
+             "OnlyThrowIsCaught, Transparent, Frame and Usable; every complete session is replayed. The sweep applies "
+             "every global function of the interpreter's own vars() table (minus an exclusion list that is also in the "
+             "specification) to every tuple of 0..2 (thorough 0..3) arguments from a 32-value boundary pool, prefix and "
+             "infix, each as the mini-session sentinel; call; the same call under try/catch; 1 + 1; sentinel re-read, "
+             "forces lazy results, and treats 85 fault-injected statement templates the same way. Trace_Outcome accepts "
+             "a recorded mini-session only if some statement of the automaton explains it and its final check rejects a "
+             "sweep that skipped a global function, an arity or an argument-kind signature. Exploration bound to a "
+             "protocol specification: exhaustive over builtin x pool, not over all values.",
+        note="Excluded (Outcome!Excluded): files, process, network, clock, sleep, randomness; infinite streams only for "
+             "NonConsuming callees; stack exhaustion by unbounded recursion not covered. Hangs are confirmed alone with a "
+             "3 s limit; a 3 GB address-space limit per interpreter turns runaway allocation into an abort. Known "
+             "finding: eleven repetition/shift/power/window builtins exhaust resources for counts >= 2^63.",
+        technique="TLA+ protocol automaton (Outcome) + TLC model checking with session replay + exhaustive builtin x "
+                  "boundary-argument sweep and fault-injected statements validated by TLC trace validation"),
 }
 PENDING = "check not built yet in this round (planned, see DESIGN.md section 4 and 9)"
 ALL = ["C%02d" % i for i in range(1, 18)]
